@@ -3,6 +3,7 @@
 use std::io::{self, BufRead, Write};
 
 mod eng;
+mod frp;
 mod gc;
 
 pub struct Script {
@@ -38,23 +39,51 @@ fn main() {
     std::panic::set_hook(Box::new(|_| {}));
     let args: Vec<String> = std::env::args().collect();
     let stdin = io::stdin();
-    let stdout = io::stdout();
-    let mut out = io::BufWriter::new(stdout.lock());
-    match args.get(1).map(|s| s.as_str()) {
-        Some("gc-run") => {
-            for s in read_scripts(stdin.lock()) {
-                gc::run_script(&s, &mut out);
+    let mode = args.get(1).cloned().unwrap_or_default();
+    let scripts = read_scripts(stdin.lock());
+    // watchdog: a script that makes no progress for the time limit (a deadlock inside the library, a
+    // collection that does not return) is reported as HANG and the process exits with status 3; the
+    // driver re-runs the scripts after it in a fresh process
+    let limit: u64 = std::env::var("VERIF_SCRIPT_TIMEOUT").ok().and_then(|s| s.parse().ok()).unwrap_or(20);
+    let current: std::sync::Arc<std::sync::Mutex<(String, std::time::Instant, bool)>> =
+        std::sync::Arc::new(std::sync::Mutex::new((String::new(), std::time::Instant::now(), false)));
+    {
+        let current = current.clone();
+        std::thread::spawn(move || loop {
+            std::thread::sleep(std::time::Duration::from_millis(200));
+            let c = current.lock().unwrap();
+            if c.2 {
+                return;
             }
-        }
-        Some("eng-run") => {
-            for s in read_scripts(stdin.lock()) {
-                eng::run_script(&s, &mut out);
+            if !c.0.is_empty() && c.1.elapsed().as_secs() >= limit {
+                let so = io::stdout();
+                let mut so = so.lock();
+                let _ = writeln!(so, "# {}\nHANG\n---", c.0);
+                let _ = so.flush();
+                std::process::exit(3);
             }
-        }
-        _ => {
-            eprintln!("usage: impl_run (gc-run | eng-run)");
-            std::process::exit(2);
-        }
+        });
     }
-    out.flush().unwrap();
+    for s in &scripts {
+        {
+            let mut c = current.lock().unwrap();
+            c.0 = s.name.clone();
+            c.1 = std::time::Instant::now();
+        }
+        let mut buf: Vec<u8> = Vec::new();
+        match mode.as_str() {
+            "gc-run" => gc::run_script(s, &mut buf),
+            "eng-run" => eng::run_script(s, &mut buf),
+            "frp-run" => frp::run_script(s, &mut buf, true),
+            _ => {
+                eprintln!("usage: impl_run (gc-run | eng-run | frp-run)");
+                std::process::exit(2);
+            }
+        }
+        let so = io::stdout();
+        let mut so = so.lock();
+        so.write_all(&buf).unwrap();
+        so.flush().unwrap();
+    }
+    current.lock().unwrap().2 = true;
 }
